@@ -1,7 +1,7 @@
 (* Model/Dispatch.v — one integer-list interface over all executable models,
    used by the extracted OCaml driver and by the in-kernel cases.v sample. *)
 From Coq Require Import ZArith List Bool.
-From Verif Require Import Base.Word64 Model.Sketch Model.Expiry Model.Wheel.
+From Verif Require Import Base.Word64 Model.Sketch Model.Expiry Model.Wheel Model.Policy.
 Import ListNotations.
 Open Scope Z_scope.
 
@@ -9,14 +9,16 @@ Inductive mstate :=
 | MSketch (s : sketch)
 | MExpiry
 | MWheel (w : wheel)
+| MPolicy (p : policy)
 | MNone.
 
-(* model ids: 1 sketch, 2 expiry arithmetic, 3 timer wheel *)
+(* model ids: 1 sketch, 2 expiry arithmetic, 3 timer wheel, 4 eviction policy *)
 Definition m_init (model : Z) (cfg : list Z) : mstate :=
   match model with
   | 1 => MSketch (sk_init cfg)
   | 2 => MExpiry
   | 3 => MWheel (wh_init cfg)
+  | 4 => MPolicy (pol_init cfg)
   | _ => MNone
   end.
 
@@ -25,6 +27,7 @@ Definition m_step (m : mstate) (op : list Z) : mstate * list Z :=
   | MSketch s => let '(s', o) := sk_step s op in (MSketch s', o)
   | MExpiry => let '(_, o) := ex_step tt op in (MExpiry, o)
   | MWheel w => let '(w', o) := wh_step w op in (MWheel w', o)
+  | MPolicy p => let '(p', o) := pol_step p op in (MPolicy p', o)
   | MNone => (MNone, [-999])
   end.
 
